@@ -236,8 +236,8 @@ def window_candidates(vid, ids, hs):
 
 class C07(core.Check):
     pid = "C07"
-    gen_modules = []
-    model_targets = ["theories/Model/ListBoxView.vo"]
+    gen_modules = ["monitored_list"]       # C16's translated focus arithmetic, used by Model/ListBoxWalker.v
+    model_targets = ["theories/Model/MonitoredList.vo", "theories/Model/ListBoxView.vo", "theories/Model/ListBoxWalker.vo"]
     prop_file = "theories/Properties/C07.v"
     extract_v = "Extract/C07X.v"
     allowed_axioms = set()
@@ -334,8 +334,10 @@ class C07(core.Check):
                 body[a[1]] = make_widget(kind, nxt[0], a[2])
                 nxt[0] += 1
         elif k == "clear":
-            while len(body):
-                del body[len(body) - 1]
+            if hasattr(body, "replace_all"):
+                body.replace_all([])
+            else:
+                del body[:]
         elif k == "reflow":
             for w, sp in zip(list(body), a[1]):
                 if hasattr(w, "reflow"):
@@ -403,6 +405,8 @@ class C07(core.Check):
             steps.append(out)
             aux.append(ax)
             ax["mod"] = self.modelled(case, a)
+            ax["ids0"] = [getattr(w, "n", None) for w in list(body)]
+            ax["nxt0"] = nxt[0]
             try:
                 act = self.do_action(lb, body, kind, a, size, nxt)
             except core.MachineryError:
@@ -422,6 +426,7 @@ class C07(core.Check):
             ax["sa"] = self.lb_state(lb, body)
             ax["items"] = [w.spec() for w in cur_ws] if kind == "item" else None
             ax["dups"] = len(set(map(id, cur_ws))) != len(cur_ws)
+            ax["nnew"] = nxt[0] - ax["nxt0"]
             out["fa"] = ax["sa"][0]
             if ax["mod"]:
                 out["sa"] = ax["sa"]
@@ -520,7 +525,14 @@ class C07(core.Check):
                     plan.append(("model", [8, maxrow, a[1], a[2], CF[a[3]]]))
                 elif k == "mcv":
                     plan.append(("model", [9, maxrow]))
-                else:   # walker edits: the model is told the new contents and the walker's focus
+                elif case.get("walker", "sflw") == "sflw":
+                    # SimpleFocusListWalker: the edit is executed by the MonitoredFocusList model of C16 inside
+                    # Model/ListBoxWalker.v - the focus after the edit is computed by the model
+                    if "sa" not in ax:
+                        plan.append(("stop",))
+                        break
+                    plan.append(("model", self.enc_edit(a, ax)))
+                else:   # other walkers: the model is told the new contents and the walker's focus
                     if "sa" not in ax:
                         plan.append(("stop",))
                         break
@@ -532,6 +544,55 @@ class C07(core.Check):
                 st = r["st"] if "st" in r else ax["sa"]
                 plan.append(("sync", [6] + self.enc_items(ax["items"]) + [st[0]] + [5, st[0], st[1], st[2], st[3]] + list(st[4]) + list(st[5])))
         return plan
+
+    @staticmethod
+    def enc_tab(pairs):
+        out = [len(pairs)]
+        for n, (h, sel, cy) in pairs:
+            out += [n, h, 1 if sel else 0, 0 if cy is None else cy + 1]
+        return out
+
+    def enc_edit(self, a, ax):
+        """a walker edit as an operation of C16's MonitoredFocusList model (Model/MonitoredList.v dec_op) on widget
+        identities, preceded by the table of the widgets created for it"""
+        def oz(v):
+            return [0] if v is None else [1, v]
+        k, ids0, n0 = a[0], ax["ids0"], ax["nxt0"]
+        m = len(ids0)
+        new = []
+        if k == "reflow":
+            return [12] + self.enc_tab(list(zip(ids0, [sp[:3] for sp in a[1]])))
+        if k == "insert":
+            new = [(n0, a[2][:3])]
+            op = [5, max(0, min(a[1], m)), n0]
+        elif k == "delete":
+            if not 0 <= a[1] < m:
+                return []
+            op = [1, a[1]]
+        elif k == "replace":
+            if not 0 <= a[1] < m:
+                return []
+            new = [(n0, a[2][:3])]
+            op = [2, a[1], n0]
+        elif k == "clear":
+            op = [3, 0, 0, 0]
+        elif k == "imul":
+            op = [13, a[1]]
+        elif k == "iadd":
+            new = [(n0 + i, sp[:3]) for i, sp in enumerate(a[1])]
+            op = [12, len(new)] + [n for n, _ in new]
+        elif k == "setslice":
+            new = [(n0 + i, sp[:3]) for i, sp in enumerate(a[3])]
+            op = [4] + oz(a[1]) + oz(a[2]) + [0] + [len(new)] + [n for n, _ in new]
+        elif k == "delslice":
+            op = [3] + oz(a[1]) + oz(a[2]) + oz(a[3])
+        elif k == "reverse":
+            op = [10]
+        elif k == "sort":
+            op = [11, 1 if a[1] else 0]
+        else:
+            raise core.MachineryError("no model operation for edit " + k)
+        return [11] + self.enc_tab(new) + op
 
     def encode(self, case):
         if "ast" in case or case.get("kind", "item") != "item":
@@ -566,6 +627,8 @@ class C07(core.Check):
             t = next(it)
             if t == 0:
                 oc = None
+            elif t == 3:
+                oc = ("edit", next(it))
             elif t == 1:
                 oc = next(it)
             else:
@@ -593,8 +656,11 @@ class C07(core.Check):
                             out.update(err=err, exc=r.get("exc"), where="action", msg=r.get("msg"))
                             break
                     else:
-                        st = r.get("sa")
-                    if "edit_exc" in r:
+                        st, oc = r.get("sa"), None
+                    if isinstance(oc, tuple) and oc[0] == "edit":
+                        if oc[1]:
+                            out["edit_exc"] = ERRN.get(oc[1], "?")     # the exception is computed by the model
+                    elif "edit_exc" in r:
                         out["edit_exc"] = r["edit_exc"]
                     out["fa"] = st[0]
                     out["sa"] = st
@@ -1112,7 +1178,7 @@ class C07(core.Check):
                 visit(child, c, f)
         visit(tree, None, None)
 
-    technique = ("Coq proof that EVERY view state with offset_rows >= 0 and 0 <= inum < iden renders a gap-free window "
+    technique = ("[walker edits: C16 model imported] Coq proof that EVERY view state with offset_rows >= 0 and 0 <= inum < iden renders a gap-free window "
                  "(three fill loops of calculate_visible in closed form, lia), that the only two writers of the view state "
                  "establish that invariant and that any history preserves it; hand model tied by an exact extracted-model "
                  "correspondence on states and histories; ast scan of the write sites; slice oracle on real list boxes")
@@ -1133,6 +1199,14 @@ class C07(core.Check):
                   "completely above the new page; kept as a regression case).  page_up_never_raises, home_end_never_raise: the same for 'page up', 'home', 'end'.  "
                   "NOT proved: that 'up', 'down' and mouse_event never raise (correspondence + regression "
                   "oracle with an empty baseline: any exception out of keypress / mouse_event is reported).  "
+                  "operations_are_chains_of_atomic_transitions: every state an operation returns is reached through the two "
+                  "writers, walker set_focus calls on existing positions, pending-flag updates and cursor moves.  "
+                  "walker_histories_keep_focus_and_view_valid + window_contains_focus_after_any_history_of_keys_and_edits: for a "
+                  "list box over a SimpleFocusListWalker the walker edits (item/slice assignment and deletion with any step, "
+                  "insert, +=, *=, reverse, sort) are executed by C16's MonitoredFocusList model (focus arithmetic re-translated "
+                  "from monitored_list.py each run, C16's theorem step_sound imported), so the focus after an edit is computed "
+                  "by the model; over any history of keys, mouse events, requests and edits the focus stays inside the list, "
+                  "render never raises and a non-empty list is never drawn blank.  "
                   "NOT modelled: widgets with move_cursor_to_coords (real Edit histories are oracle only), widgets whose "
                   "rows()/render()/cursor disagree, wrap-around walkers, maxrow = 0; canvas-level trimming of multi-shard items "
                   "and cache invalidation by walker edits are oracle only; exceptions out of keypress / mouse_event are judged "
@@ -1159,6 +1233,7 @@ class C07(core.Check):
         "Coq 8.16.1 kernel (coqc; vm_compute only in closed examples and the refutation witness)",
         "hand transcription of calculate_visible/render/shift_focus/change_focus/make_cursor_visible/_set_focus_complete/"
         "_set_focus_first_selectable/_keypress_up/_keypress_down/mouse_event in Model/ListBoxView.v (validated by this correspondence, not proved against Python)",
+        "C16's files, imported read-only: Model/MonitoredList.v (hand wiring of the MonitoredFocusList methods, validated by C16's own correspondence), Gen/monitored_list_gen.v (py2v translation of _adjust_focus_on_contents_modified), Proofs/MonitoredListProofs.v",
         "the ast scan in harness/props/c07.py (assignment, augmented assignment, del, for/with targets, setattr/delattr of offset_rows / inset_fraction anywhere in urwid/)",
         "extraction: ExtrOcamlBasic only; Z/positive stay Coq datatypes; OCaml 4.13.1; tools/driver/driver.ml",
         "the labelled-row test widgets and the Python oracle in harness/props/c07.py",
